@@ -140,6 +140,72 @@ impl rustc_driver::Callbacks for Cb {
             let depth = tcx.def_path(d.to_def_id()).data.len();
             std::cmp::Reverse((matches!(tcx.def_kind(*d), DefKind::Closure), depth))
         });
+        // ... and, more generally, every body after the local closures / coroutines whose TYPE it mentions (a call of an
+        // `async fn` helper puts that helper's coroutine type into the caller's locals, wherever the helper is declared):
+        // depth-first over that relation, read from the built MIR cloned above
+        {
+            let mut deps: std::collections::HashMap<LocalDefId, Vec<LocalDefId>> = std::collections::HashMap::new();
+            for (d, body) in &bodies {
+                let mut v: Vec<LocalDefId> = Vec::new();
+                for decl in body.local_decls.iter() {
+                    for arg in decl.ty.walk() {
+                        if let Some(t) = arg.as_type() {
+                            let did = match t.kind() {
+                                ty::Closure(did, _) | ty::Coroutine(did, _) | ty::CoroutineClosure(did, _) => Some(*did),
+                                _ => None,
+                            };
+                            if let Some(l) = did.and_then(|x| x.as_local()) {
+                                if l != *d && !v.contains(&l) {
+                                    v.push(l);
+                                }
+                            }
+                        }
+                    }
+                }
+                // a call of a local `async fn` (or any local fn returning an opaque future) hides the coroutine behind an opaque type:
+                // depend on the closure-like children of every local function this body calls
+                for bbdata in body.basic_blocks.iter() {
+                    if let Some(term) = &bbdata.terminator {
+                        if let TerminatorKind::Call { func, .. } = &term.kind {
+                            if let ty::FnDef(fdid, _) = func.ty(body, tcx).kind() {
+                                if let Some(fl) = fdid.as_local() {
+                                    for o in &owners {
+                                        if matches!(tcx.def_kind(*o), DefKind::Closure) && tcx.local_parent(*o) == fl && *o != *d && !v.contains(o) {
+                                            v.push(*o);
+                                        }
+                                    }
+                                }
+                            }
+                        }
+                    }
+                }
+                deps.insert(*d, v);
+            }
+            let mut ordered: Vec<LocalDefId> = Vec::new();
+            let mut state: std::collections::HashMap<LocalDefId, u8> = std::collections::HashMap::new();
+            fn visit(
+                d: LocalDefId,
+                deps: &std::collections::HashMap<LocalDefId, Vec<LocalDefId>>,
+                state: &mut std::collections::HashMap<LocalDefId, u8>,
+                ordered: &mut Vec<LocalDefId>,
+            ) {
+                if state.get(&d).copied().unwrap_or(0) != 0 {
+                    return;
+                }
+                state.insert(d, 1);
+                if let Some(v) = deps.get(&d) {
+                    for x in v.clone() {
+                        visit(x, deps, state, ordered);
+                    }
+                }
+                state.insert(d, 2);
+                ordered.push(d);
+            }
+            for d in &elab_order {
+                visit(*d, &deps, &mut state, &mut ordered);
+            }
+            elab_order = ordered;
+        }
         for d in &elab_order {
             let steal = tcx.mir_drops_elaborated_and_const_checked(*d);
             if steal.is_stolen() {
